@@ -441,70 +441,130 @@ Qed.
 Local Close Scope R_scope.
 
 (* ================================================================== AllVariables: values per input *)
-Lemma resolution_all : forall pow_root v n, 0 <= v -> (1 <= n)%nat ->
-  resolution pow_root AllVariables v n = Ok (-1 + Z.max 1 (pow_root v n)).
+(* ---- the two integer correction loops of the repaired code *)
+Lemma root_down_spec : forall n fuel v root, 1 <= root -> root <= Z.of_nat fuel ->
+  let r := root_down fuel v n root in
+  1 <= r <= root /\ ((1 <? r) && (v <? r ^ Z.of_nat n) = false).
 Proof.
-  intros pow_root v n Hv Hn. unfold resolution. destruct n as [|n]; [lia|].
+  intros n fuel. induction fuel as [|f IH]; intros v root H1 Hf; cbn [root_down].
+  - lia.
+  - destruct ((1 <? root) && (v <? root ^ Z.of_nat n)) eqn:E.
+    + apply andb_true_iff in E. destruct E as [E _]. apply Z.ltb_lt in E.
+      destruct (IH v (root - 1)) as [Hr Hx]; [lia | lia |]. split; [lia | exact Hx].
+    + split; [lia | exact E].
+Qed.
+(* the fuel of the down loop suffices: its condition is false of the result *)
+Lemma root_down_exit : forall n v root, 1 <= root ->
+  let r := root_down (Z.to_nat root) v n root in
+  1 <= r <= root /\ ((1 <? r) && (v <? r ^ Z.of_nat n) = false).
+Proof. intros n v root H. apply root_down_spec; lia. Qed.
+
+Lemma pow_pos_base : forall a n, 1 <= a -> 1 <= a ^ Z.of_nat n.
+Proof. intros a n Ha. assert (0 < a ^ Z.of_nat n) by (apply Z.pow_pos_nonneg; lia). lia. Qed.
+
+(* the fuel of the up loop suffices: `(root + 1)**inputs <= values` is false of the result *)
+Lemma root_up_exit : forall n v root, (1 <= n)%nat -> 1 <= root ->
+  ((kroot_up (Z.to_nat v) v n root + 1) ^ Z.of_nat n <=? v) = false.
+Proof.
+  intros n v root Hn Hr. apply Z.leb_gt.
+  destruct (Z_le_gt_dec v 0) as [Hv|Hv].
+  - replace (Z.to_nat v) with 0%nat by lia. cbn [kroot_up].
+    pose proof (pow_pos_base (root + 1) n ltac:(lia)). lia.
+  - assert (Hgen : forall fuel k, 1 <= k -> v < (k + Z.of_nat fuel + 1) ^ Z.of_nat n ->
+                     v < (kroot_up fuel v n k + 1) ^ Z.of_nat n).
+    { induction fuel as [|f IH]; intros k Hk Hlt; cbn [kroot_up].
+      - replace (k + Z.of_nat 0 + 1) with (k + 1) in Hlt by lia. exact Hlt.
+      - destruct (Z.leb_spec ((k + 1) ^ Z.of_nat n) v); [|lia].
+        apply IH; [lia|]. replace (k + 1 + Z.of_nat f + 1) with (k + Z.of_nat (S f) + 1) by lia. exact Hlt. }
+    apply Hgen; [exact Hr|]. rewrite Z2Nat.id by lia.
+    assert ((v + 1) ^ Z.of_nat n <= (root + v + 1) ^ Z.of_nat n) by (apply Z.pow_le_mono_l; lia).
+    pose proof (pow_ge_base (v + 1) n ltac:(lia) Hn). lia.
+Qed.
+
+(* the repaired resolution is the documented integer root, WHATEVER the float root oracle answers
+   (any starting point: the down loop brings it to a k with k^n <= v or to 1, the up loop to the largest such k) *)
+Theorem resolution_all : forall pow_root v n, 1 <= v -> (1 <= n)%nat ->
+  resolution pow_root AllVariables v n = Ok (kroot v n - 1).
+Proof.
+  intros pow_root v n Hv Hn. unfold resolution. destruct n as [|m]; [lia|].
+  set (n := S m) in *.
+  replace (v <? 0) with false by (symmetry; apply Z.ltb_ge; lia). cbn [andb].
+  set (r0 := Z.max 1 (pow_root v n)).
+  destruct (root_down_exit n v r0 ltac:(lia)) as [Hr1 Hx]. cbv zeta in Hr1, Hx.
+  set (r1 := root_down (Z.to_nat r0) v n r0) in *.
+  assert (Hle : r1 ^ Z.of_nat n <= v).
+  { apply andb_false_iff in Hx. destruct Hx as [Hx|Hx].
+    - apply Z.ltb_ge in Hx. replace r1 with 1 by lia. rewrite Z.pow_1_l by lia. lia.
+    - apply Z.ltb_ge in Hx. exact Hx. }
+  assert (Hlt : v < (r1 + Z.of_nat (Z.to_nat v) + 1) ^ Z.of_nat n).
+  { rewrite Z2Nat.id by lia.
+    assert ((v + 1) ^ Z.of_nat n <= (r1 + v + 1) ^ Z.of_nat n) by (apply Z.pow_le_mono_l; lia).
+    pose proof (pow_ge_base (v + 1) n ltac:(lia) Hn). lia. }
+  destruct (kroot_up_spec n (Z.to_nat v) v r1 Hn ltac:(lia) Hle Hlt) as [Hge Hb].
+  cbv zeta in Hge, Hb.
+  rewrite (root_unique v n (kroot_up (Z.to_nat v) v n r1)) by (try lia; exact Hb).
+  reflexivity.
+Qed.
+
+Lemma values_per_input_kroot : forall v n, 1 <= v -> (1 <= n)%nat -> values_per_input (kroot v n - 1) = kroot v n.
+Proof. intros v n Hv Hn. pose proof (kroot_ge_1 v n Hv Hn). unfold values_per_input. lia. Qed.
+
+(* C18, all variables = v: k values per input, k the largest integer with k^n <= v -- for the code as it is now *)
+Theorem all_variables_k : forall pow_root v n, 1 <= v -> (1 <= n)%nat ->
+  exists res, resolution pow_root AllVariables v n = Ok res /\
+    let k := values_per_input res in
+    k = kroot v n /\ 1 <= k /\
+    k ^ Z.of_nat n <= v < (k + 1) ^ Z.of_nat n /\
+    (forall j, 0 <= j -> j ^ Z.of_nat n <= v -> j <= k).
+Proof.
+  intros pow_root v n Hv Hn. exists (kroot v n - 1). split; [apply resolution_all; assumption|].
+  cbv zeta. rewrite values_per_input_kroot by assumption.
+  pose proof (kroot_ge_1 v n Hv Hn). destruct (kroot_spec v n) as [_ Hs]; try lia.
+  repeat split; try lia. intros j Hj Hle. apply kroot_largest; try assumption; lia.
+Qed.
+
+(* ---- the formula before the repair: -1 + max(1, int(pow(v, 1/n))) *)
+Lemma resolution_unrepaired_all : forall pow_root v n, 0 <= v -> (1 <= n)%nat ->
+  resolution_unrepaired pow_root AllVariables v n = Ok (-1 + Z.max 1 (pow_root v n)).
+Proof.
+  intros pow_root v n Hv Hn. unfold resolution_unrepaired. destruct n as [|n]; [lia|].
   replace (v <? 0) with false by (symmetry; apply Z.ltb_ge; lia). reflexivity.
 Qed.
 Lemma values_per_input_all : forall r, values_per_input (-1 + Z.max 1 r) = Z.max 1 r.
 Proof. intros r. unfold values_per_input. lia. Qed.
 
-Section AllVariables.
-  (* k per input when the root is the documented integer root *)
-  Theorem all_variables_k_kroot : forall v n, 1 <= v -> (1 <= n)%nat ->
-    exists res, resolution kroot AllVariables v n = Ok res /\
-      let k := values_per_input res in
-      k = Z.max 1 (kroot v n) /\ k = kroot v n /\
-      k ^ Z.of_nat n <= v < (k + 1) ^ Z.of_nat n /\
-      (forall j, 0 <= j -> j ^ Z.of_nat n <= v -> j <= k).
-  Proof.
-    intros v n Hv Hn. pose proof (kroot_ge_1 v n Hv Hn) as H1.
-    exists (-1 + Z.max 1 (kroot v n)). split; [apply resolution_all; lia|].
-    cbn zeta. rewrite values_per_input_all.
-    replace (Z.max 1 (kroot v n)) with (kroot v n) by lia.
-    destruct (kroot_spec v n) as [_ Hs]; try lia.
-    repeat split; try lia. intros j Hj Hle. apply kroot_largest; try assumption; lia.
-  Qed.
-
-  (* the full statement for an arbitrary root oracle: what the property demands of the implementation *)
-  Definition all_variables_largest_k (pow_root : Z -> nat -> Z) : Prop :=
-    forall v n res, 1 <= v -> (1 <= n)%nat -> resolution pow_root AllVariables v n = Ok res ->
+Section Unrepaired.
+  Definition unrepaired_largest_k (pow_root : Z -> nat -> Z) : Prop :=
+    forall v n res, 1 <= v -> (1 <= n)%nat -> resolution_unrepaired pow_root AllVariables v n = Ok res ->
       let k := values_per_input res in k ^ Z.of_nat n <= v < (k + 1) ^ Z.of_nat n.
 
-  Theorem all_variables_largest_k_kroot : all_variables_largest_k kroot.
-  Proof.
-    intros v n res Hv Hn Hr. destruct (all_variables_k_kroot v n Hv Hn) as (res' & Hr' & _ & _ & Hs & _).
-    assert (E : res = res') by congruence. subst res'. exact Hs.
-  Qed.
-
-  (* the statement holds of an oracle exactly when it agrees with kroot on the domain *)
-  Theorem all_variables_largest_k_iff : forall pow_root,
-    all_variables_largest_k pow_root <->
+  (* the old formula is right exactly when the truncated float root agrees with the integer root *)
+  Theorem unrepaired_largest_k_iff : forall pow_root,
+    unrepaired_largest_k pow_root <->
     (forall v n, 1 <= v -> (1 <= n)%nat -> Z.max 1 (pow_root v n) = kroot v n).
   Proof.
     intros pow_root. split.
     - intros H v n Hv Hn.
-      assert (Hr := resolution_all pow_root v n ltac:(lia) Hn).
+      assert (Hr := resolution_unrepaired_all pow_root v n ltac:(lia) Hn).
       specialize (H v n _ Hv Hn Hr). cbn zeta in H. rewrite values_per_input_all in H.
       apply root_unique; try lia.
     - intros H v n res Hv Hn Hr.
-      assert (E : res = -1 + Z.max 1 (pow_root v n)) by (rewrite resolution_all in Hr by lia; congruence).
+      assert (E : res = -1 + Z.max 1 (pow_root v n)) by (rewrite resolution_unrepaired_all in Hr by lia; congruence).
       subst res.
       cbn zeta. rewrite values_per_input_all, H by lia.
       destruct (kroot_spec v n) as [_ Hs]; lia.
   Qed.
 
-  (* finding F8: an oracle with int(pow(64, 1/3)) = 3 (what libm pow gives: 3.9999999999999996) refutes it *)
-  Theorem all_variables_largest_k_refuted_if : forall pow_root,
-    pow_root 64 3%nat = 3 -> ~ all_variables_largest_k pow_root.
+  (* finding F8: an oracle with int(pow(64, 1/3)) = 3 (libm pow gives 3.9999999999999996) refutes the old formula *)
+  Theorem unrepaired_largest_k_refuted_if : forall pow_root,
+    pow_root 64 3%nat = 3 -> ~ unrepaired_largest_k pow_root.
   Proof.
-    intros pow_root H Hall. pose proof (proj1 (all_variables_largest_k_iff pow_root) Hall) as Hk'.
-    clear Hall. specialize (Hk' 64 3%nat ltac:(lia) ltac:(lia)). rename Hk' into Hall. rewrite H in Hall.
+    intros pow_root H Hall. pose proof (proj1 (unrepaired_largest_k_iff pow_root) Hall) as Hk'.
+    specialize (Hk' 64 3%nat ltac:(lia) ltac:(lia)). rewrite H in Hk'.
     assert (Hk : kroot 64 3 = 4) by (vm_compute; reflexivity).
-    rewrite Hk in Hall. lia.
+    rewrite Hk in Hk'. lia.
   Qed.
-End AllVariables.
+End Unrepaired.
 
 (* ================================================================== write: rows, header *)
 Section Write.
@@ -747,20 +807,20 @@ Section Compose.
   Qed.
 End Compose.
 
-(* AllVariables with the documented root: k^n rows, at most v *)
-Theorem all_variables_rows_count : forall (T : Type) (N : Num T) v (e : engine T),
+(* AllVariables: k^n rows, at most v, whatever the float root oracle answers *)
+Theorem all_variables_rows_count : forall (T : Type) (N : Num T) pow_root v (e : engine T),
   1 <= v -> e_inputs e <> [] ->
   let n := List.length (e_inputs e) in
-  exists rows, scope_inputs kroot AllVariables v e (fun _ => true) = Ok rows /\
+  exists rows, scope_inputs pow_root AllVariables v e (fun _ => true) = Ok rows /\
     Z.of_nat (List.length rows) = kroot v n ^ Z.of_nat n /\ kroot v n ^ Z.of_nat n <= v.
 Proof.
-  intros T N v e Hv Hne n.
+  intros T N pow_root v e Hv Hne n.
   assert (Hn : (1 <= n)%nat) by (subst n; destruct (e_inputs e); [congruence | cbn; lia]).
-  assert (Hr := resolution_all kroot v n ltac:(lia) Hn).
+  assert (Hr := resolution_all pow_root v n Hv Hn).
   pose proof (kroot_ge_1 v n Hv Hn) as H1.
   eexists. split; [apply scope_inputs_eq; exact Hr|].
   rewrite map_length, lex_enum_length, active_flags_all, max_values_all, fuel_of_repeat.
-  unfold M. replace (Z.max 0 (-1 + Z.max 1 (kroot v n)) + 1) with (kroot v n) by lia.
+  unfold M. replace (Z.max 0 (kroot v n - 1) + 1) with (kroot v n) by lia.
   split; [reflexivity|]. destruct (kroot_spec v n) as [_ Hs]; lia.
 Qed.
 
